@@ -94,6 +94,6 @@ def run(ctx):
                                    "plus the full product over the count/size fields where it is small); the mutated inputs are a seeded sample")
     ctx.assumptions += ["TLC, the CommunityModules Json reader, the counting allocator and the child-process protocol of drv_parse are trusted",
                         "allocation bound: 256 bytes per input byte + 16 MiB (+ the documented 1 GiB cap for entry points that decompress); a single request above 2 GiB is refused by the harness allocator and observed as an abort",
-                        "a hang counts only if the input, re-run alone in a fresh child, exceeds 3 x the per-input budget again"]
+                        "per-input watchdog 3 s (the parsers are microsecond-scale; 60 s for the generated bombs), started when the child has acknowledged its initialisation; a hang counts only if the same input, re-run alone in a fresh child, is still running after 9 s; after 3 confirmed hangs an entry point is not fed any more (its remaining inputs are logged as skipped) so that the run ends in normal time with the violations reported"]
     return lib.finish(ctx, "exploration",
                       rule="one evaluation = one call of a real parser on one input, judged by T_ParserGuard; distinct = distinct input byte strings (md5)")
